@@ -191,7 +191,7 @@ pub fn adsr_twin(case: &AdsrCase, tick_budget: u64, stats: &mut Stats) -> Result
                 a.set_input(Input::Release((*t).into()));
                 b.set_input(Input::Release(clamp_t(*t, &a).into()));
             }
-            AdsrOp::NudgeTime { .. } | AdsrOp::GateBurst { .. } | AdsrOp::CutShort(_) => {}
+            AdsrOp::NudgeTime { .. } | AdsrOp::GateBurst { .. } | AdsrOp::CutShort(_) | AdsrOp::ParamBurst { .. } => {}
             AdsrOp::SetSustain(s) => {
                 if is_special(*s, 0.0, 1.0) {
                     special += 1;
